@@ -156,7 +156,7 @@ func (v JV) toGo() (stick.Value, error) {
 }
 
 func numJV(f float64) JV {
-	if !math.IsInf(f, 0) && !math.IsNaN(f) && math.Abs(f) < 1e7 {
+	if !math.IsInf(f, 0) && !math.IsNaN(f) && math.Abs(f) < 3.3e7 {
 		q := f * 64
 		if q == math.Trunc(q) && !(f == 0 && math.Signbit(f)) {
 			i := int64(q)
